@@ -1262,7 +1262,7 @@ def gen_C17(rng, tier):
 
 # properties whose Props/Cxx.lean carries kernel-checked property theorems are claimed at level `proof`;
 # the others run the correspondence + oracle only until their theorems land
-LEVELS = {'C16': 'proof', 'C15': 'other', 'C04': 'proof', 'C05': 'proof', 'C08': 'proof', 'C01': 'proof', 'C02': 'proof', 'C03': 'proof', 'C09': 'proof', 'C12': 'proof', 'C13': 'proof', 'C14': 'proof', 'C10': 'proof', 'C11': 'proof'}
+LEVELS = {'C16': 'proof', 'C15': 'other', 'C04': 'proof', 'C05': 'proof', 'C08': 'proof', 'C01': 'proof', 'C02': 'proof', 'C03': 'proof', 'C09': 'proof', 'C12': 'proof', 'C13': 'proof', 'C14': 'proof', 'C10': 'proof', 'C11': 'proof', 'C06': 'proof', 'C07': 'proof'}
 
 TB_FIELD = ['arkworks Montgomery arithmetic and fiat-crypto primitives: modelled by contract (exact arithmetic mod p)']
 
